@@ -1,5 +1,19 @@
 // Contract and proof harness for contracts/example/src/contract.rs.
 use super::*;
+// named explicitly: the harness must not depend on which of these the file under verification happens to import
+use crate::event;
+use axelar_gas_service::AxelarGasServiceClient;
+use axelar_gateway::AxelarGatewayMessagingClient;
+use axelar_soroban_std::types::Token;
+use soroban_sdk::contract;
+use soroban_sdk::contractimpl;
+use soroban_sdk::panic_with_error;
+use soroban_sdk::Address;
+use soroban_sdk::Bytes;
+use soroban_sdk::Env;
+use soroban_sdk::String;
+use crate::storage_types::DataKey;
+use axelar_gateway::executable::AxelarExecutableInterface;
 use soroban_sdk::shim::{self, inst, pers, temp, Wordy, Words};
 use soroban_sdk::{BytesN, Symbol};
 
